@@ -192,3 +192,49 @@ package ipfsproxy
 //@   opts own
 //@   ensures [success-means-shut-down] err == nil ==> proxy.shutdown
 //@   modifies *
+
+// ---- C15: the loaded form of the proxy section ----
+//@ extern multiaddr.NewMultiaddr(s)
+//@   ensures res == libfn("multiaddr.NewMultiaddr", 0, s)
+//@   ensures err == nil ==> !isnil(res)
+//@ spec func validProxyCfg(c *Config) bool = len(c.ListenAddr) > 0 && !isnil(c.NodeAddr) && c.ReadTimeout >= 0 && c.ReadHeaderTimeout >= 0 && c.WriteTimeout >= 0 && c.IdleTimeout >= 0 && c.ExtractHeadersPath != "" && c.ExtractHeadersTTL >= 0 && c.MaxHeaderBytes >= minMaxHeaderBytes
+//@ func (cfg *Config) Validate
+//@   property C15
+//@   requires cfg != nil
+//@   ensures [accepts-exactly-the-valid] err == nil <==> validProxyCfg(cfg)
+//@   modifies nothing
+//@ func (cfg *Config) applyJSONConfig
+//@   property C15
+//@   inline SetIfNotDefault
+//@   requires cfg != nil && jcfg != nil
+//@   ensures [accepted-is-valid] err == nil ==> validProxyCfg(cfg)
+//@   ensures [listen-multiaddress] err == nil && len(jcfg.ListenMultiaddress) > 0 ==> len(cfg.ListenAddr) == len(jcfg.ListenMultiaddress) && forall j int :: 0 <= j && j < len(jcfg.ListenMultiaddress) ==> cfg.ListenAddr[j] == libfn("multiaddr.NewMultiaddr", 0, jcfg.ListenMultiaddress[j])
+//@   ensures [node-multiaddress] err == nil && jcfg.NodeMultiaddress != "" ==> cfg.NodeAddr == libfn("multiaddr.NewMultiaddr", 0, jcfg.NodeMultiaddress)
+//@   ensures [node-https] err == nil ==> cfg.NodeHTTPS == (jcfg.NodeHTTPS || old(cfg.NodeHTTPS))
+//@   ensures [log-file] err == nil ==> cfg.LogFile == ite(jcfg.LogFile != "", jcfg.LogFile, old(cfg.LogFile))
+//@   ensures [read-timeout] err == nil ==> cfg.ReadTimeout == ite(jcfg.ReadTimeout != "", parseDur(jcfg.ReadTimeout), old(cfg.ReadTimeout))
+//@   ensures [read-header-timeout] err == nil ==> cfg.ReadHeaderTimeout == ite(jcfg.ReadHeaderTimeout != "", parseDur(jcfg.ReadHeaderTimeout), old(cfg.ReadHeaderTimeout))
+//@   ensures [write-timeout] err == nil ==> cfg.WriteTimeout == ite(jcfg.WriteTimeout != "", parseDur(jcfg.WriteTimeout), old(cfg.WriteTimeout))
+//@   ensures [idle-timeout] err == nil ==> cfg.IdleTimeout == ite(jcfg.IdleTimeout != "", parseDur(jcfg.IdleTimeout), old(cfg.IdleTimeout))
+//@   ensures [extract-headers-ttl] err == nil ==> cfg.ExtractHeadersTTL == ite(jcfg.ExtractHeadersTTL != "", parseDur(jcfg.ExtractHeadersTTL), old(cfg.ExtractHeadersTTL))
+//@   ensures [max-header-bytes] err == nil ==> cfg.MaxHeaderBytes == ite(jcfg.MaxHeaderBytes == 0, DefaultMaxHeaderBytes, jcfg.MaxHeaderBytes)
+//@   ensures [extract-headers-extra] err == nil && len(jcfg.ExtractHeadersExtra) > 0 ==> cfg.ExtractHeadersExtra == jcfg.ExtractHeadersExtra
+//@   ensures [extract-headers-path] err == nil ==> cfg.ExtractHeadersPath == ite(jcfg.ExtractHeadersPath != "", jcfg.ExtractHeadersPath, old(cfg.ExtractHeadersPath))
+//@   loop 1 (range addresses)
+//@     invariant len(cfg.ListenAddr) == idx1 && forall j int :: 0 <= j && j < idx1 ==> cfg.ListenAddr[j] == libfn("multiaddr.NewMultiaddr", 0, addresses[j])
+//@     invariant cfg.NodeHTTPS == old(cfg.NodeHTTPS) && cfg.LogFile == old(cfg.LogFile) && cfg.ReadTimeout == old(cfg.ReadTimeout) && cfg.ReadHeaderTimeout == old(cfg.ReadHeaderTimeout) && cfg.WriteTimeout == old(cfg.WriteTimeout) && cfg.IdleTimeout == old(cfg.IdleTimeout) && cfg.ExtractHeadersTTL == old(cfg.ExtractHeadersTTL) && cfg.ExtractHeadersPath == old(cfg.ExtractHeadersPath) && cfg.NodeAddr == old(cfg.NodeAddr)
+//@     invariant forall q *jsonConfig :: *q == old(*q)
+//@   modifies *
+
+// ---- C15: loading a section = the defaults, then the section applied on top of them (a setting the section does
+// not carry gets its default, not whatever the object held before) ----
+//@ ghost var defaultsN int
+//@ func (cfg *Config) Default
+//@   opts trusted
+//@   counts defaultsN when true
+//@   modifies heap(Config)
+//@ func (cfg *Config) LoadJSON
+//@   property C15
+//@   requires cfg != nil
+//@   at_call Config.applyJSONConfig assert [defaults-first] defaultsN == old(defaultsN) + 1
+//@   modifies *
